@@ -6,7 +6,7 @@ from, count/range of integer draws, counter discipline) — design level.
 DefaultRandomCoin<LoggedHasher<H>> (three runs each: A, A again, B with one reseed digest replaced) and
 spec/coin/TraceCoin.tla validates every recorded call against the same machine, with the machine's
 hash operators bound to the hasher calls the coin actually made."""
-import json, os
+import json, os, re, time
 import vf
 
 SPECDIR = os.path.join(vf.SPEC, "coin")
@@ -35,7 +35,7 @@ def le(v, n):
     return list(int(v).to_bytes(n, "little"))
 
 
-def gen_history(rng, hid, h, f, maxlen):
+def gen_history(rng, hid, h, f, maxlen, err_draws=1):
     p, w = MOD[f], WIDTH[f]
     toy = f.startswith("t")
     nseed = rng.choice([0, 1, 1, 2, 3, 4, 8])
@@ -52,9 +52,9 @@ def gen_history(rng, hid, h, f, maxlen):
             if toy and deg > 1:
                 # extension elements of a toy field need canonical 4-byte coordinates below a tiny modulus:
                 # practically every candidate is rejected, the draw costs 1000 hasher calls and ends in
-                # the documented error -- at most one of those per history
+                # the documented error -- at most err_draws of those per history
                 draws += 1
-                if draws > 1:
+                if draws > err_draws:
                     deg = 1
             ops.append({"op": "draw", "deg": deg})
         elif k == "ints":
@@ -171,7 +171,9 @@ def validate(ck, events, hists, name):
         k = pos + rej[0][0]
         s, e = max((se for se in slices if se[0] <= k), key=lambda se: se[0])
         sig, desc = describe(events, k)
-        exp = expected_for(events, s, k) if events[k]["e"] not in ("begin", "end") else None
+        known = any((kf.get("signature_regex") and re.search(kf["signature_regex"], sig)) or kf.get("signature") == sig
+                    for kf in ck.known)
+        exp = expected_for(events, s, k) if (events[k]["e"] not in ("begin", "end") and not known) else None
         if exp is not None:
             res = exp["res"]
             if res["t"] == "ok" and len(res["v"]) > 40:
@@ -205,19 +207,24 @@ def run(ck, tier):
     per_combo = 6 if thorough else 1
     maxlen = 30 if thorough else 16
     hists, hid = [], 0
+    ntoy = 0
     for (h, f) in COMBOS:
+        ntoy += f.startswith("t")
         for _ in range(per_combo):
             hid += 1
-            hists.append(gen_history(ck.rng, hid, h, f, maxlen))
-    # the integer draw with zero requested values: its own tiny histories, so that it cannot hide anything else
-    for (h, f) in [("b256", "f128"), ("rp64", "f64")]:
-        hid += 1
-        hists.append({"hid": hid, "h": h, "f": f, "seed": [le(1, WIDTH[f])],
-                      "ops": [{"op": "reseed", "data": [1]}, {"op": "ints", "n": 0, "size": 8, "nonce": le(0, 8)},
-                              {"op": "draw", "deg": 1}],
-                      "div": 2, "alt": [2]})
+            # quick tier: failing 1000-candidate draws only in the first two toy instantiations
+            hists.append(gen_history(ck.rng, hid, h, f, maxlen, err_draws=1 if (thorough or ntoy <= 2) else 0))
+    # the integer draw with zero requested values: a tiny history of its own, recorded and validated apart
+    # from the others so that it cannot hide anything else
+    hid += 1
+    zero = [{"hid": hid, "h": "b256", "f": "f128", "seed": [le(1, 16)],
+             "ops": [{"op": "reseed", "data": [1]}, {"op": "ints", "n": 0, "size": 8, "nonce": le(0, 8)},
+                     {"op": "draw", "deg": 1}],
+             "div": 2, "alt": [2]}]
+    t0 = time.time()
     events, summary = record(binary, hists, "rec")
-    ck.require(summary["histories"] == len(hists), "recorder dropped histories")
+    zevents, zsummary = record(binary, zero, "zero")
+    ck.require(summary["histories"] == len(hists) and zsummary["histories"] == 1, "recorder dropped histories")
     kinds = {}
     for e in events:
         key = e["e"] + ("/" + e["r"]["t"] if e["e"] in ("draw", "ints") else "")
@@ -226,9 +233,14 @@ def run(ck, tier):
         ck.require(kinds.get(k, 0) > 0, "no recorded event of kind " + k)
     retried = sum(1 for e in events if e["e"] == "draw" and e["r"]["t"] == "ok" and len(e["hf"]) >= 2)
     ck.require(retried > 0, "no draw that succeeded after a rejected candidate")
+    t1 = time.time()
     nrej = validate(ck, events, hists, "coin")
-    ncalls = sum(1 for e in events if e["e"] not in ("begin", "end"))
+    t2 = time.time()
+    nrej += validate(ck, zevents, zero, "coin-zero")
+    ncalls = sum(1 for e in events + zevents if e["e"] not in ("begin", "end"))
+    hists = hists + zero
     ck.traces += 3 * len(hists)
+    ck.part("timing", record_s=round(t1 - t0, 1), validate_s=round(t2 - t1, 1), validate_zero_s=round(time.time() - t2, 1))
     ck.evaluations += ncalls
     for e in events:
         if e["e"] == "draw" and e["r"]["t"] == "ok" and 2 <= len(e["hf"]) <= 3:
